@@ -175,6 +175,8 @@ type lanceroSimCard struct {
 	visible   int       // bytes of ring already returned by AvailableBuffer (write index as last shown)
 	released  int64     // bytes released since the adapter started (alignment bookkeeping)
 	gapInRing int       // ring offset of an injected gap not yet released past (-1: none)
+	gapBytes  int       // its length
+	capPos    int64     // truth offset at which the capture began
 
 	gaps []lanceroSimGap
 
@@ -276,6 +278,7 @@ func (lc *lanceroSimCard) beginCapture() {
 	lc.pos = frame*int64(t.frameSize) + int64(4*phase)
 	lc.capStart = time.Now()
 	lc.capBytes = 0
+	lc.capPos = lc.pos
 	lc.env.Op("card: capture #%d starts at frame %d word %d", lc.starts, frame, phase)
 	if lc.starts >= 2 && lc.onCaptureRun != nil {
 		lc.onCaptureRun(int(frame))
@@ -392,6 +395,16 @@ func (lc *lanceroSimCard) AvailableBuffer() ([]byte, time.Time, error) {
 	lc.visible = l
 	out := make([]byte, l)
 	copy(out, lc.ring[:l])
+	// "the best estimate of the time stamp taken immediately after the end of the segment": the
+	// moment the firmware sent the last byte returned (= now, to within a word, unless the write
+	// index shown lags behind the firmware).
+	endTruth := lc.pos - int64(len(lc.ring)-l)
+	if lc.gapInRing >= l {
+		endTruth -= int64(lc.gapBytes)
+	}
+	if stamp := lc.capStart.Add(time.Duration((endTruth - lc.capPos) * int64(lc.framePeriod) / int64(lc.truth.frameSize))); stamp.Before(now) {
+		now = stamp
+	}
 	lc.nReads++
 	simrt.Logf("card: AvailableBuffer -> %d bytes (%d produced and unreleased), read index at stream byte %d", l, avail, lc.pos-int64(len(lc.ring)))
 	if l > lc.maxChunk {
@@ -464,6 +477,7 @@ func (lc *lanceroSimCard) injectGap() {
 	g := lanceroSimGap{at: at, nbytes: 4 * nwords, firstFrame: int(at / int64(fs)), lastFrame: int((at + int64(4*nwords) - 1) / int64(fs)), whole: lc.gapWhole, seenAfter: lc.blocksSeen()}
 	lc.gaps = append(lc.gaps, g)
 	lc.gapInRing = start
+	lc.gapBytes = 4 * nwords
 	lc.gapsLeft--
 	if lc.gapWhole {
 		simrt.Fault("gap-whole-frames")
